@@ -58,6 +58,8 @@ def near_miss(G, X):
         n = E.polygon_normal(cyc)
         i = R.randrange(len(cyc))
         c = E.mean(cyc)
+        if len(cyc) >= 4 and R.random() < 0.3:      # a vertex dropped: the vertex set of one polygon is a strict SUBSET of the other's, same plane
+            return ('G', cyc[:i] + cyc[i + 1:])
         if R.random() < 0.5:       # push one vertex outwards in the plane (stays convex)
             cyc2 = list(cyc)
             cyc2[i] = add(cyc[i], mul(F(1, 4), sub(cyc[i], c)))
@@ -68,6 +70,10 @@ def near_miss(G, X):
     vs = E.vertices_of(X)
     c = E.mean(vs)
     i = R.randrange(len(vs))
+    if len(vs) >= 5 and R.random() < 0.3:      # a vertex dropped: the hull of the remaining vertices
+        fs = E.hull_faces(vs[:i] + vs[i + 1:])
+        if fs:
+            return ('B', fs)
     vs2 = list(vs)
     vs2[i] = add(vs[i], mul(F(1, 4), sub(vs[i], c)))
     fs = E.hull_faces(vs2)
